@@ -1,6 +1,7 @@
 """C10 — the front end is total (four exact sub-rules; general panic freedom is not claimed)."""
 import re
 
+from .. import armlib as A
 from .. import hirlib as H
 from .. import mirlib as M
 from .. import tys
@@ -593,6 +594,7 @@ SEAL_READERS = {
         "prints one definition; an abstract type inside it prints as its name, not through the table",
     "zydeco_statics::elaborate::monadic::type_translation": "a sealed type is an error there (NotInlinableSeal)",
     "zydeco_statics::check::Tycker::<'a>::record_seal": "writer",
+    "zydeco_statics::normalize::TypeSupportCollector::visit": "recursive (the escape check opens seals): guarded by `visiting_seals`",
 }
 
 
@@ -649,6 +651,29 @@ def rule_seal_cycle(ctx):
                           "%s follows an entry of the seals table into a recursive call of itself without a visited-set test on the seal "
                           "id: `def L : VType = L` makes it recurse until the stack overflows" % base, [bd["loc"][0], a["ln"]],
                           detail={"guard": "contains + push on the same collection"})
+        # the same obligation when the entry is bound by a `let` first: a recursive call whose argument derives from the table
+        # must sit under an `if` whose condition tests / extends a visited set
+        env = A.ArmEnv()
+        env.strip = True
+        env.bind_params(h)
+        env.absorb(h["body"])
+        covered = {id(c) for m in H.walk(h["body"]) if H.kind(m) == "Match" and not m.get("src")
+                   and any(r is y for r in reads for y in H.walk(m["scrut"])) for a in m["arms"] for c in H.walk(a["body"])}
+        for c in rec:
+            if id(c) in covered or not re.search(r"[ (]seals\)", A.sexpr(c, env)):
+                continue
+            guarded = False
+            cur = c
+            while id(cur) in par:
+                cur = par[id(cur)]
+                if H.kind(cur) == "If" and any(H.kind(y) == "MethodCall" and y["name"] in ("contains", "insert", "contains_key")
+                                               for y in H.walk(cur.get("c") or cur.get("cond") or {})):
+                    guarded = True
+                    break
+            ctx.check(guarded, rule, "%s:recursion-guard" % M.short_fn(base),
+                      "%s follows an entry of the seals table into a recursive call of itself without a visited-set test on the seal "
+                      "id: `def L : VType = L` makes it recurse until the stack overflows" % base, [bd["loc"][0], c.get("ln")],
+                      detail={"guard": "if .. insert(seal id) around the recursive call"})
     ctx.floor(rule, "readers of the seals table", n, 4)
 
 
